@@ -310,6 +310,14 @@ func (w *World) runItem(idx int) {
 		w.fanout(m)
 		w.ev(Ev{K: "outside.delete", S: name})
 		return
+	case "expire":
+		key := it.Key
+		if key == "" {
+			key = "g"
+		}
+		delete(w.store.Latest, key) // MaxAge removes the message silently: no tombstone, no watch event
+		w.ev(Ev{K: "outside.expire", S: name})
+		return
 	case "crash":
 		in.crashed = true
 		w.ev(Ev{K: "crash", I: it.Inst})
